@@ -141,6 +141,33 @@ def run(ctx):
     else:
         ctx.violation("C19.R5", "C19.R5/reader-ctor", "no crai reader constructs Record::new")
 
+
+    ctx.rule("C19.R7", "A10 the per-slice accumulator is per slice: the map in which push_index_records_for_multi_reference_slice collects the "
+                       "per-reference ranges of ONE slice is created in that function (or, if it is handed in, cleared before the first "
+                       "entry): a map that survives from slice to slice makes every later multi-reference slice list references it does "
+                       "not contain, with the hull of the earlier spans")
+    from .. import a10 as _a10
+    f7 = ctx.anchor("C19.R7", "noodles_cram::fs::index::push_index_records_for_multi_reference_slice")
+    if f7 is not None:
+        ctx.saw_fn(f7)
+        bd7 = _a10.Body(fb, f7)
+        ins = [(b, c) for b, c in f7.calls() if re.search(r"hash::map::HashMap(::)?<.*>::(entry|insert)$", c.get("f") or "") and c["args"]]
+        if not ins:
+            ctx.violation("C19.R7", "C19.R7/ANCHOR-MISSING/multi-reference/accumulator", "no HashMap::entry / insert found in the multi-reference indexer", f7.loc())
+        for b7, c7 in ins:
+            ident = bd7.pointee(c7["args"][0])
+            if ident is not None and ident[0][0] == "l":
+                ctx.ok("C19.R7", f7.key, "the accumulator is a local of the function (fresh for every slice)", f7.loc(b7))
+                continue
+            kb = _a10.kill_blocks(fb, bd7, ident, {}) if ident is not None else set()
+            if kb and b7 not in (C.reachable(f7, 0, removed=kb) if 0 not in kb else set()):
+                ctx.ok("C19.R7", f7.key, "the handed-in accumulator is cleared before the first entry", f7.loc(b7))
+            else:
+                ctx.violation("C19.R7", "C19.R7/accumulator-outlives-slice/" + f7.key,
+                              "push_index_records_for_multi_reference_slice collects the ranges of a slice in a map it did not create and does "
+                              "not clear: the entries of earlier slices stay in it, so the CRAI entries of every later multi-reference slice "
+                              "list references the slice does not contain and spans that are the hull of earlier ones", f7.loc(b7))
+
     ctx.rule("C19.R6", "A7 span accumulation: ReferenceSequenceContext::update (the slice span that the slice header and the CRAI entry carry) "
                        "takes the new start as min(record start, previous START) and the new end as max(record end, previous END)")
     fu = ctx.anchor("C19.R6", "noodles_cram::container::reference_sequence_context::ReferenceSequenceContext::update")
